@@ -158,7 +158,7 @@ def run(tier, seed):
     return {"coverage": coverage, "violations": violations}
 
 
-def replay(case):
+def _replay_single(case):
     loader.install_shims()
     if case.get("kind") == "spelling":
         from . import c02_spelling
@@ -182,3 +182,15 @@ def replay(case):
         shown = got[1].hex() if got[0] == "bytes" else f"{got[1]}: {got[2]}"
         return f"[{info.ident}] value {val!r}: serialized {shown}, format prescribes {exp[1].hex()}\n{p.node.xml()}"
     return None
+
+
+def replay(case):
+    what = _replay_single(case)
+    if what:
+        return what
+    if case.get("kind") in ("spelling",):
+        return None
+    what = e3.replay_whole(case["tier"], int(case["index"]), Judge())
+    if what or not case.get("shard"):
+        return what
+    return e3.replay_shard(case["tier"], case["shard"], Judge())
